@@ -1,4 +1,5 @@
 import AlgopyVerif.Proofs.Linalg
+import AlgopyVerif.Proofs.LinalgInv
 /-!
 # C07 — linear-algebra functions propagate matrix Taylor polynomials correctly
 
@@ -12,10 +13,16 @@ concrete matrix type in the driver — with the NumPy results on the zeroth coef
 * `solve_spec`: `A(t) · X(t) = B(t)` modulo `t^D` from `A_0 · A_0⁻¹ = I` (`solve`, and `solve` with a constant
   right-hand side as the special case `B = B_0`).
 
-Not proved (partial): `inv(A)(t) · A(t) = I` (left inverse), rectangular right-hand sides (the theorem
-is stated in one ring; the model and the code handle `n×k`), `det = sign · ∏ diag U`, `logdet`, the Padé
-approximant of `expm` — these are checked on the implementation against independent formulas
-(Leibniz determinant and exponential series in Taylor arithmetic, residuals).
+* `inv_left_inverse`: `inv(A)(t) · A(t) = I` modulo `t^D` as well (through `PowerSeries R`), and
+  `solve_unique`: the solution of `A(t) X(t) = B(t)` is unique modulo `t^D`;
+* `det_through_lu`: in any commutative ring (instantiate with `ℝ[t]/(t^D)`), `W L U = A` with `L` unit lower and
+  `U` upper triangular gives `det A = det W · ∏ Uᵢᵢ` — the formula `UTPM.det` evaluates; the LU identity itself is
+  C08's `lu_defining_equation`.
+
+Not proved (partial): rectangular right-hand sides (the theorem is stated in one ring; the model and
+the code handle `n×k`), `logdet` as `log` of that determinant, the Padé approximant of `expm` — these are
+checked on the implementation against independent formulas (Leibniz determinant and exponential series
+in Taylor arithmetic, residuals).
 -/
 open AV Finset
 namespace AV.C07
@@ -30,6 +37,21 @@ theorem inv_right_inverse (x : List R) (y0 : R) (h0 : coR x 0 * y0 = 1) (d : Nat
 
 theorem solve_spec (a : List R) (a0inv : R) (b : List R) (h0 : coR a 0 * a0inv = 1) (d : Nat) (h : d < b.length) :
     ∑ k ∈ range (d+1), coR a k * coR (solveM a a0inv b) (d-k) = coR b d := solveM_spec a a0inv b h0 d h
+
+theorem inv_left_inverse (x : List R) (y0 : R) (h0 : coR x 0 * y0 = 1) (h0' : y0 * coR x 0 = 1)
+    (d : Nat) (h : d < x.length) :
+    ∑ k ∈ range (d+1), coR (invM x y0) k * coR x (d-k) = if d = 0 then 1 else 0 :=
+  invM_left_inverse x y0 h0 h0' d h
+
+theorem solve_unique (a : List R) (a0inv : R) (h0' : a0inv * coR a 0 = 1) (b z w : List R) (D : ℕ)
+    (hz : ∀ d, d < D → ∑ k ∈ range (d+1), coR a k * coR z (d-k) = coR b d)
+    (hw : ∀ d, d < D → ∑ k ∈ range (d+1), coR a k * coR w (d-k) = coR b d) (d : ℕ) (hd : d < D) :
+    coR z d = coR w d := AV.solve_unique a a0inv h0' b z w D hz hw d hd
+
+theorem det_through_lu {S : Type} [CommRing S] {n : ℕ} (σ : Equiv.Perm (Fin n)) (L U A : Matrix (Fin n) (Fin n) S)
+    (h : (σ.permMatrix S) * L * U = A) (hL : L.BlockTriangular OrderDual.toDual) (hL1 : ∀ i, L i i = 1)
+    (hU : U.BlockTriangular id) : A.det = (Equiv.Perm.sign σ : ℤ) * ∏ i, U i i :=
+  det_of_lu_perm σ L U A h hL hL1 hU
 
 /-- constant right-hand side (`_solve_non_UTPM_x`) -/
 theorem solve_const_rhs_spec (a : List R) (a0inv b0 : R) (h0 : coR a 0 * a0inv = 1) (d : Nat) (h : d < a.length) :
